@@ -80,6 +80,8 @@ M = [
     ("C17-bintest-nan-poison", "C17", "cnvlib/bintest.py", '    p = np.where((cnarr["log2"] == 0) & (cnarr["weight"] == 1), 1.0, p)\n', ''),
     ("C04-gc-correction-skipped", "C04", "cnvlib/fix.py", "        if fix_gc:\n", "        if fix_gc and False:\n"),
     ("C04-all-corrections-skipped-for-antitargets", "C04", "cnvlib/fix.py", "        if fix_rmask:\n", "        if False:\n"),
+    ("C19-wmedian-abs-epsilon", "C19", "cnvlib/descriptives.py", "    tolerance = len(a) * sys.float_info.epsilon * midpoint\n", "    tolerance = 0.0\n"),
+    ("C19-wmedian-loose-tolerance", "C19", "cnvlib/descriptives.py", "    tolerance = len(a) * sys.float_info.epsilon * midpoint\n", "    tolerance = 1e-5 * midpoint\n"),
     ("C12-annotate-by-label", "C12", "cnvlib/target.py", 'annotation.into_ranges(tgt_arr, "gene", "-").values', 'annotation.into_ranges(tgt_arr, "gene", "-")'),
     # ---- C13
     ("C13-join-le", "C13", "cnvlib/access.py", "if gap < min_gap_size:", "if gap <= min_gap_size:"),
